@@ -178,3 +178,188 @@ def random_history(rng, n=None, safe=False):
         else:
             ops.append(("g", target))
     return ops
+
+
+# ---------------------------------------------------------------- the theorems' value class (Python port of fv_ok)
+WS = b"\t\n\x0c\r "
+QUOTE_CLASS = b"=@()[]{}?/\;:'<>,"
+ALL_KEYS = [k.encode() for k in KEYS] + [b"zz", b"max-age", b"q"]
+
+
+def needs_quote(s):
+    return any(c in WS or c in QUOTE_CLASS for c in s)
+
+
+def embeds_at(k, b):
+    i = 0
+    while i < len(b) and b[i] in WS:
+        i += 1
+    if len(b) < i + len(k) or b[i:i + len(k)].lower() != k.lower():
+        return False
+    rest = b[i + len(k):]
+    return bool(rest) and (rest[0] in WS or rest[0] in b"=,")
+
+
+def noembed(k, s):
+    return not any(s[i] == 0x2C and embeds_at(k, s[i + 1:]) for i in range(len(s)))
+
+
+def classify_value(s, keys=ALL_KEYS):
+    """None when a sub-field value is in the class the C17 theorems cover, else the construct that excludes it"""
+    if s is None or s == b"":
+        return None
+    if b"\n" in s:
+        return "newline"
+    if any(c >= 0x80 for c in s):
+        return None if not needs_quote(s) or all(noembed(k, s) for k in keys) else "embedded-key"
+    if needs_quote(s):
+        if s.endswith(b"\\"):
+            return "trailing-backslash"
+        if any(not noembed(k, s.replace(b'"', b'\\"')) for k in keys):
+            return "embedded-key"
+        return None
+    if s.startswith(b'"'):
+        return "quoted-token"
+    return None
+
+
+def safe_value(rng):
+    while True:
+        v = plain_value(rng)
+        if classify_value(v) is None:
+            return v
+
+
+def ows_dict_value(rng, keys):
+    """a list of sub-fields with optional blanks BEFORE the commas as well (outside the proved class,
+    inside the property's alphabet; the direct oracle is applied to it)"""
+    items = []
+    pool = list(keys) + ["zz", "max-age"]
+    rng.shuffle(pool)
+    for k in pool[: rng.randint(1, 4)]:
+        r = rng.random()
+        it = k if r < 0.3 else ("%s=%s" % (k, token(rng).decode()) if r < 0.7 else '%s="%s"' % (k, rng.choice(["x y", "a;b", "1 2"])))
+        items.append(rng.choice(["", " ", "  "]) + it + rng.choice(["", " ", "  ", "\t"]))
+    return ",".join(items).encode().rstrip(b" \t") if rng.random() < 0.5 else ",".join(items).encode()
+
+
+def oracle_history(rng, n=None, tricky=False):
+    """histories inside the direct oracle's domain: whole-header values are well-formed sub-field lists
+    (or tokens / empty / not set), sub-field values are in the proved class - or, with tricky=True,
+    sometimes one of the recorded trouble makers (the oracle then attributes a violation to it)"""
+    n = n or rng.randint(1, 8)
+    ops = []
+    for _ in range(n):
+        r = rng.random()
+        name = rng.choice(rng.choice(NAMES))
+        key = rng.choice(KEYS)
+        if rng.random() < 0.3:
+            key = key.upper()
+        target = name if rng.random() < 0.4 else "%s:%s" % (name, key)
+        if r < 0.5:
+            if ":" in target:
+                q = rng.random()
+                if q < 0.1:
+                    v = None
+                elif tricky and q < 0.45:
+                    v = tricky_value(rng, KEYS)
+                    if classify_value(v) == "newline" or any(c >= 0x80 for c in v):
+                        v = safe_value(rng)
+                else:
+                    v = safe_value(rng)
+            else:
+                q = rng.random()
+                v = (dict_value(rng, KEYS) if q < 0.4 else ows_dict_value(rng, KEYS) if q < 0.6 else None if q < 0.7
+                     else b"" if q < 0.8 else token(rng))
+            ops.append(("s", target, v))
+        elif r < 0.62:
+            ops.append(("a", name, dict_value(rng, KEYS) if rng.random() < 0.6 else token(rng)))
+        elif r < 0.85:
+            ops.append(("u", target))
+        else:
+            ops.append(("g", target))
+    return ops
+
+
+def instrument(ops, reads):
+    """append the full read set after every mutating operation"""
+    out = []
+    for o in ops:
+        out.append(o)
+        if o[0] != "g":
+            out.extend(reads)
+    return out
+
+
+def cut_lf(v):
+    return v.split(b"\n", 1)[0]
+
+
+def oracle(ops, reads, replies):
+    """Direct oracle on ONE side's replies (independent of the model): the store laws of C17 evaluated on
+    an instrumented history.  Returns a list of (message, kind) - kind names the recorded construct
+    the violation is attributed to (or None)."""
+    out = []
+    nread = len(reads)
+    prev = {t[1]: "N" for t in reads}
+    taint = {}          # lower-cased header name -> kind
+    i = 0
+    for o in ops:
+        if o[0] == "g":
+            i += 1
+            continue
+        st = replies[i]
+        cur = dict(zip([t[1] for t in reads], replies[i + 1:i + 1 + nread]))
+        i += 1 + nread
+        if len(cur) != nread:
+            out.append(("short reply", None))
+            break
+        if st != "ok":
+            out.append(("%s %s -> %s (expected ok)" % (o[0], o[1], st), None))
+            prev = cur
+            continue
+        hname, _, key = o[1].partition(":")
+        g = hname.lower()
+        if o[0] == "s" and key and o[2] is not None:
+            kd = classify_value(o[2])
+            if kd and g not in taint:
+                taint[g] = kd
+        if o[0] in ("s", "u") and not key:
+            taint.pop(g, None)
+        kind = taint.get(g)
+        # spellings agree
+        for a, b in NAMES:
+            if cur.get(a) != cur.get(b):
+                out.append(("spellings %s / %s read %s / %s after %s %s" % (a, b, cur.get(a), cur.get(b), o[0], o[1]), None))
+        for t, rep in cur.items():
+            th, _, tk = t.partition(":")
+            if th.lower() != g:
+                if rep != prev[t]:
+                    out.append(("%s %s changed the read of %s: %s -> %s" % (o[0], o[1], t, prev[t], rep), None))
+                continue
+            exp = None
+            if not key:
+                if o[0] == "s" and o[2] is not None and not tk:
+                    exp = ["S" + cut_lf(o[2]).hex()]
+                elif o[0] == "u" or (o[0] == "s" and o[2] is None):
+                    exp = ["N"]
+                elif o[0] == "a":
+                    # add appends: a header that already had a non-empty first value keeps every read
+                    whole = prev.get(th, "N")
+                    if whole.startswith("S") and len(whole) > 1:
+                        exp = [prev[t]]
+            else:
+                if tk and tk.lower() == key.lower():
+                    if o[0] == "s" and o[2] is not None:
+                        exp = ["S" + o[2].hex()]
+                    elif o[0] == "s":
+                        exp = ["S"] + (["N"] if len(key) == 1 else [])
+                    else:
+                        exp = ["N"]
+                elif tk:
+                    exp = [prev[t]]
+            if exp is not None and rep not in exp:
+                out.append(("after %s %s%s: %s reads %s, expected %s" % (
+                    o[0], o[1], "" if len(o) < 3 else (" = " + repr(o[2])), t, rep, " or ".join(exp)), kind))
+        prev = cur
+    return out
